@@ -1,6 +1,6 @@
 """Check that every harness notices planted bugs / deliberately wrong oracles.
 
-    cd /repo && PYTHONPATH=/repo:/verif /venv/bin/python -m vkb.sanity_check
+    cd /repo && PYTHONPATH=/repo:/verif/fake_rpy2:/verif /venv/bin/python -m vkb.sanity_check [module ...]
 
 Each (harness, patch) pair runs the quick tier with VKB_PATCH=vkb/sanity/<patch>.py
 and must report >= 1 witness.  Pairs listed in EQUIVALENT are expected to report
@@ -27,6 +27,14 @@ MATRIX = [
     ("c10", "rule1_false"), ("c10", "rule2_false"), ("c10", "label_edges_z"), ("c10", "imec_ignores_targets"),
     ("c15", "desc_excludes_self"), ("c15", "paths_drop_last"),
     ("c18", "remove_edges_offbyone"), ("c18", "add_edges_noguard"),
+    # model / sampling harnesses (patches touch sempler.lganm, .anm, .normal_distribution, .generators, .semi, .utils)
+    ("c01", "lganm_noise_after_do"), ("c01", "lganm_int_truncation"),
+    ("c02", "anm_shift_hides_do"), ("c02", "anm_parent_order"), ("c02", "topo_sum_shortcut"), ("c02", "anm_init_no_copy"),
+    ("c13", "seed_guard_truthy"), ("c13", "anm_seed_guard_truthy"), ("c13", "targets_global_stream"), ("c13", "lganm_init_unseeded"),
+    ("c14", "lganm_init_no_copy"), ("c14", "anm_init_no_copy"), ("c14", "nd_init_no_copy"), ("c14", "lganm_sample_no_copy"),
+    ("c14", "maximally_orient_inplace"), ("c14", "only_directed_alias"), ("c14", "separates_consumes_set"), ("c14", "split_data_shuffles_input"),
+    ("c17", "split_drops_remainder"), ("c17", "split_exact_sum"), ("c17", "split_loose_sum"), ("c17", "split_data_shuffles_input"),
+    ("c19", "drf_unsorted_parents"), ("c19", "drf_same_bootstrap_seed"), ("c19", "drf_forest_unseeded"), ("c19", "drf_n_length_unchecked"),
 ]
 EQUIVALENT = [("c10", "rule3_false"), ("c10", "rule4_false")]
 
@@ -46,12 +54,14 @@ def run(mod, patch):
 
 def main():
     bad = 0
-    for mod in sorted({m for m, _ in MATRIX}):
+    only = set(sys.argv[1:])
+    matrix = [(m, p) for m, p in MATRIX + EQUIVALENT if not only or m in only]
+    for mod in sorted({m for m, _ in matrix}):
         n, info = run(mod, None)
         ok = n == 0
         bad += not ok
         print("%-4s %-26s witnesses=%s %s %s" % (mod, "(pinned library)", n, "ok" if ok else "UNEXPECTED", info))
-    for mod, patch in MATRIX + EQUIVALENT:
+    for mod, patch in matrix:
         n, info = run(mod, patch)
         want_some = (mod, patch) not in EQUIVALENT
         ok = n is not None and ((n > 0) == want_some)
